@@ -58,13 +58,13 @@ Definition selfview := key -> option value.
    already-bound method object stored on a class: none of these is re-bound on access)
    or a function / property defined in the class body, whose result depends on the
    instance it is looked up through (descriptor rule: `self` is bound at access). *)
-(* LIMITATION (open msdm defect C15:augment:of-derived-mdp:overridden-component-unusable): a CVal is
-   never re-bound on access.  That is right for data, for bound methods and for staticmethod
-   objects, but a PLAIN FUNCTION stored un-wrapped on a class is bound as a method by Python.
-   augment(augment(m, reward=f), ...) does exactly that with f (`AugmentedMDP.reward = mdp.reward`
-   where mdp.reward is the plain f), and every later call raises TypeError; the model predicts f
-   preserved.  The harness reports those derivations as property violations and does not compare
-   the model on them. *)
+(* A CVal is never re-bound on access.  That is right for data, bound methods and
+   staticmethod objects; it would be wrong for a plain function stored un-wrapped on a class
+   (Python binds it as a method).  augment never does that: overrides are stored as
+   staticmethod(f) and, since /repo commit b30f659, so are the copies staticmethod(mdp.x) of the
+   non-overridden components (before it, augment of an augmented MDP stored a previously
+   overridden f un-wrapped and every call raised TypeError: harness signature
+   C15:augment:of-derived-mdp:overridden-component-unusable). *)
 Inductive centry : Type :=
 | CVal (v : value)
 | CFun (body : selfview -> option value).
